@@ -201,7 +201,13 @@ class Src:
             if acc == want and j < len(s):
                 # allow a where clause before the brace: skip to first '{'
                 jj = j
-                if self.tt(s[jj]) == "{":
+                if self.tt(s[jj]) == "where":
+                    # skip the where clause up to the block's opening brace
+                    while jj < len(s) and self.tt(s[jj]) != "{":
+                        if self.tt(s[jj]) in ("(", "["):
+                            jj = s.index(self._match[s[jj]])
+                        jj += 1
+                if jj < len(s) and self.tt(s[jj]) == "{":
                     hits.append((s[jj], self._match[s[jj]]))
         if multi:
             if not hits:
